@@ -315,7 +315,7 @@ pub fn c03(run: &mut Run) {
     for (l, f) in [("exact_domain", 0.3), ("tolerance_strict", 0.3), ("not_started", 0.2), ("active_interior", 0.5), ("ended", 0.2), ("reverse_falling", 0.1), ("cycle_ge_1", 0.2), ("boundary_repeat", 0.03), ("infinite", 0.1)] {
         run.require_label("c03_random", l, f);
     }
-    crate::fuzzdrv::campaign(run, "fz_c03", 12_800_000);
+    crate::fuzzdrv::campaign(run, "fz_c03", 38_400_000);
     // exhaustive / strided sweep of the f32 time axis
     let configs = sweep_configs();
     let stride: u64 = if run.tier == Tier::Quick { 64 } else { 1 };
